@@ -93,7 +93,14 @@ func Ints(b []byte) []int {
 // Rand is a small deterministic PRNG (splitmix64).
 type Rand struct{ s uint64 }
 
-func NewRand(seed uint64) *Rand { return &Rand{s: seed*0x9E3779B97F4A7C15 + 0x1234567} }
+// NewRand: the seed is mixed first, so that neighbouring seeds give unrelated streams (a plain
+// splitmix state of seed*gamma would make seed k+1 the stream of seed k shifted by one draw).
+func NewRand(seed uint64) *Rand {
+	z := (seed + 0x1234567) * 0xD6E8FEB86659FD93
+	z = (z ^ (z >> 32)) * 0xD6E8FEB86659FD93
+	z ^= z >> 32
+	return &Rand{s: z}
+}
 func (r *Rand) U64() uint64 {
 	r.s += 0x9E3779B97F4A7C15
 	z := r.s
